@@ -43,6 +43,8 @@ def text_of(d, ver, parent, variant):
         return ""
     if variant == "blank":
         return "\n   \n"
+    if variant == "bom":
+        return "\ufeff" + text_of(d, ver, parent, "plain")
     L = ["class %s%s" % (cls, " (%s)" % parent if parent else ""), ""]
     if ycls != cls:
         L += ["uses %s" % ycls, ""]
@@ -119,7 +121,7 @@ def gen_hist(rng, maxops, blanks=False):
         elif r < 70:
             ver[d] += 1
             parent = DOCS[d][2] if rng.chance(5, 6) else rng.choice(PARENT_CHOICES[d])
-            variant = rng.choice(["plain", "plain", "plain", "extra", "broken", "twoprocs"])
+            variant = rng.choice(["plain", "plain", "plain", "extra", "broken", "twoprocs", "bom"])
             if blanks and rng.chance(1, 3):
                 variant = rng.choice(["empty", "blank"])
             op = {"k": "change", "d": d, "text": [ver[d], parent, variant]}
@@ -131,7 +133,7 @@ def gen_hist(rng, maxops, blanks=False):
         elif r < 82:
             ver[d] += 1
             parent = DOCS[d][2] if rng.chance(5, 6) else rng.choice(PARENT_CHOICES[d])
-            variant = rng.choice(["plain", "plain", "extra", "twoprocs"])
+            variant = rng.choice(["plain", "plain", "extra", "twoprocs", "bom"])
             h.ops.append({"k": "save", "d": d, "text": [ver[d], parent, variant]})
         elif r < 92:
             h.ops.append({"k": "close", "d": d})
